@@ -4,7 +4,8 @@ Proof: lean/Reduino/Props/C01.lean: translation correctness of `tr` / `tr2` on t
 source = C semantics of the emitted program, every N; strict reading of `/` and `%`, see TRUSTED).
 Ties: T (text rendered from the model's `tr` vs the real emit(parse(...))), S_py (model Python semantics vs CPython),
 S_c (model C semantics vs the compiled sketch).  Oracle E: CPython trace vs compiled-firmware trace of the same script,
-on the fragment and on a stream of constructs just outside it."""
+on the fragment and on a stream of constructs just outside it (helpers, lists, comprehensions, f-strings, tuple assignments
+whose right-hand sides have side effects or reach the targets through helper functions reading / writing globals)."""
 from __future__ import annotations
 
 import common
@@ -41,6 +42,8 @@ TRUSTED = [
     "W14 list comprehension over range(a, b, s): `Fw/ListRange.lean` mirrors the helper template's counting walk and bound-checked fill walk (theorems for all a, b and s ≠ 0: "
     "the block holds exactly Python's range, no store outside it); C int unbounded there too (`exit_value_up/down`: no value beyond stop + step is computed), the lambda body a pure "
     "Int → Int (tied with affine bodies m*t + c, element type int); step 0: helper returns the empty list where CPython raises ValueError (counted, no oracle verdict)",
+    "helper functions are outside the model: a tuple assignment whose values call helpers that read or write the globals being re-bound (all values before any "
+    "store) is checked by E only, on pinned and random scripts (`helper_tuple_scripts`)",
     "harness/langgen.py printers (Python text and S-expression of one tree), harness/pyoracle.py (CPython + host modules), mock core + host g++",
 ]
 
@@ -331,6 +334,97 @@ SIDE_EFFECT_TUPLES = [
 ]
 
 
+HELPER_TUPLES = [
+    # the right-hand side of a tuple assignment reaches its own targets THROUGH helper functions (no target is mentioned in the text of the
+    # right-hand side): every value is computed before any target is bound, so a helper called by a later element still sees the old globals
+    ("tuple-helper-reads-rebound", "base = 10\ntop = 50\ngap = 0\ndef room():\n    return top - base\ntop, gap = 30, room()\nmon.write(top)\nmon.write(gap)\n"
+                                   "while True:\n    base, gap = gap + 1, room()\n    mon.write(base)\n    mon.write(gap)\n"),
+    ("tuple-helper-reads-rebound-loop", "floor_ = 0\nceil_ = 40\nwidth = 0\nk = 0\ndef room():\n    return ceil_ - floor_\nwhile True:\n    k += 1\n    floor_, width = k * 3, room()\n"
+                                        "    mon.write(floor_)\n    mon.write(width)\n    sleep(5)\n"),
+    ("tuple-helper-writes-rebound", "count = 0\nseen = 0\ndef nxt():\n    global count\n    count = count + 1\n    return count\ncount, seen = 10, nxt()\nmon.write(count)\nmon.write(seen)\n"
+                                    "seen, count = nxt(), 20\nmon.write(count)\nmon.write(seen)\n"),
+    ("tuple-helper-logs-rebound", "level = 1\nmark = 0\ndef show(n):\n    mon.write(level + n)\n    return n\nlevel, mark = 7, show(100)\nmon.write(level)\nmon.write(mark)\n"),
+    ("tuple-helper-three", "p = 1\nq = 2\nr = 3\ndef total():\n    return p + q + r\np, q, r = 10, total(), total()\nmon.write(p)\nmon.write(q)\nmon.write(r)\n"),
+    ("tuple-helper-nested-if", "lo = 2\nhi = 9\nmid = 0\ndef centre():\n    return lo + hi\nif hi > lo:\n    lo, mid = 6, centre()\nelse:\n    hi, mid = 1, centre()\nmon.write(lo)\nmon.write(mid)\n"
+                               "while True:\n    if mid > 20:\n        hi, mid = 0, centre()\n    else:\n        hi, mid = mid, centre()\n    mon.write(hi)\n    mon.write(mid)\n"),
+    ("tuple-helper-nested-for", "acc = 0\nlast = 0\ndef peek():\n    return acc + 1\nfor i in range(3):\n    acc, last = i * 10, peek()\n    mon.write(acc)\n    mon.write(last)\n"),
+    ("tuple-helper-inside-helper", "lo = 2\nhi = 9\nmid = 0\ndef centre():\n    return lo + hi\ndef shrink(n):\n    global lo, mid\n    lo, mid = n, centre()\n    return mid\n"
+                                   "mon.write(shrink(5))\nmon.write(lo)\ndef local_pair(n):\n    u = 1\n    v = 2\n    u, v = n, centre()\n    return u + v\nmon.write(local_pair(3))\n"
+                                   "while True:\n    mon.write(shrink(mid))\n"),
+    ("tuple-helper-param", "gain = 2\nout = 0\ndef amp(v):\n    return v * gain\nx = 5\ngain, out = 3, amp(x)\nmon.write(gain)\nmon.write(out)\n"),
+]
+
+
+def helper_tuple_scripts(rng, n):
+    """int globals, helper functions that read them (`return g0 - g1`), write them (`global g0; g0 = ...; return ...`) or print them, and tuple
+    assignments to the globals whose elements are constants, expressions and helper calls — with and without a textual mention of a target
+    on the right-hand side — at top level, inside if/for blocks and in the main loop; every global is printed after every statement (E only).
+    Values at most double per assignment (only + and - of names and small constants)."""
+    out = []
+    for k in range(n):
+        names = ["g0", "g1", "g2", "g3"][:rng.randint(3, 4)]
+        lines = [f"{v} = {rng.randint(-9, 30)}" for v in names]
+        helpers = []                                   # (name, arity)
+        for h in range(rng.randint(2, 4)):
+            kind = rng.choice(["read", "read", "readarg", "write", "write", "log"])
+            x, y = rng.sample(names, 2)
+            c = rng.randint(1, 9)
+            if kind == "read":
+                body = rng.choice([f"{x} - {y}", f"{x} + {y}", f"{x} + {c}", f"{x}"])
+                lines += [f"def h{h}():", f"    return {body}"]
+                helpers.append((f"h{h}", 0))
+            elif kind == "readarg":
+                lines += [f"def h{h}(n):", "    return " + rng.choice([f"{x} + n", f"n - {x}", f"{x} - {y} + n"])]
+                helpers.append((f"h{h}", 1))
+            elif kind == "write":
+                upd = rng.choice([f"{x} + n", "n", f"{y} - n", f"{x} + {c}"])
+                ret = rng.choice(["old", x, f"{x} + {y}"])
+                lines += [f"def h{h}(n):", f"    global {x}", f"    old = {x}", f"    {x} = {upd}", f"    return {ret}"]
+                helpers.append((f"h{h}", 1))
+            else:
+                lines += [f"def h{h}(n):", f"    mon.write({x} + n)", f"    return " + rng.choice(["n", f"{y}", f"{y} + n"])]
+                helpers.append((f"h{h}", 1))
+        show = "mon.write(f\"" + " ".join("{" + v + "}" for v in names) + "\")"
+
+        def tup(pad, extra=()):
+            tg = rng.sample(names, rng.randint(2, min(3, len(names))))
+            free = [v for v in names if v not in tg] + list(extra)
+            pool = free if (free and rng.random() < 0.7) else names + list(extra)        # 70%: no target appears in the text of the right-hand side
+            def atom():
+                return rng.choice(pool) if rng.random() < 0.5 else str(rng.randint(0, 12))
+            def elem(first):
+                r = rng.random()
+                if r < (0.45 if first else 0.2):
+                    return rng.choice([atom(), f"{atom()} + {rng.randint(1, 5)}", f"{rng.choice(pool)} - {atom()}"])
+                hn, ar = rng.choice(helpers)
+                return f"{hn}({atom()})" if ar else f"{hn}()"
+            rhs = [elem(i == 0) for i in range(len(tg))]
+            return [f"{pad}{', '.join(tg)} = {', '.join(rhs)}", pad + show]
+
+        def block(pad, m, extra=()):
+            ls = []
+            for _ in range(m):
+                r = rng.random()
+                if r < 0.6 or len(pad) >= 8:
+                    ls += tup(pad, extra)
+                elif r < 0.8:
+                    a, b = rng.sample(names, 2)
+                    ls += [f"{pad}if {a} {rng.choice(['<', '>', '<=', '!='])} {b}:"] + block(pad + "    ", 1, extra) + [f"{pad}else:"] + block(pad + "    ", 1, extra)
+                else:
+                    iv = f"i{len(pad) // 4}"
+                    ls += [f"{pad}for {iv} in range({rng.randint(1, 3)}):"] + block(pad + "    ", rng.randint(1, 2), tuple(extra) + (iv,))
+            return ls
+        lines += block("", rng.randint(1, 3))
+        if rng.random() < 0.7:
+            lines += ["while True:"] + block("    ", rng.randint(1, 3))
+            if rng.random() < 0.5:
+                lines.append(f"    {rng.choice(names)} += {rng.randint(1, 3)}")
+            if rng.random() < 0.3:
+                lines.append(f"    sleep({rng.randint(1, 20)})")
+        out.append((f"tuple-through-helper-{k}", "\n".join(lines) + "\n"))
+    return out
+
+
 def same_events(a, b):
     """serial lines equal as text; a device float/double line (bit pattern) equals a Python number numerically"""
     import struct
@@ -512,7 +606,8 @@ def run(ctx: Ctx) -> int:
             [("core:chained-compare", k, "\n".join(langgen.HEADER) + "\n" + body, True) for k, body in chain_scripts()] + \
             [("core:list-values", k, "\n".join(langgen.HEADER) + "\n" + body, True) for k, body in list_scripts(rng, ctx.n(25, 300))] + \
             [("core:comprehension-range", k, "\n".join(langgen.HEADER) + "\n" + body, True) for k, body in comp_scripts(rng, ctx.n(25, 300))] + \
-            [("core:tuple-rhs-order", k, "\n".join(langgen.HEADER) + "\n" + body, True) for k, body in SIDE_EFFECT_TUPLES]
+            [("core:tuple-rhs-order", k, "\n".join(langgen.HEADER) + "\n" + body, True) for k, body in SIDE_EFFECT_TUPLES] + \
+            [("core:tuple-through-helper", k, "\n".join(langgen.HEADER) + "\n" + body, True) for k, body in HELPER_TUPLES + helper_tuple_scripts(rng, ctx.n(40, 600))]
     outs = [cxx.transpile(s) for _, _, s, _ in extra]
     jobs = [(cpp, 3, "") for cpp, e in outs if cpp is not None]
     it = iter(cxx.run_many(ctx, jobs))
@@ -531,5 +626,7 @@ def run(ctx: Ctx) -> int:
                        "declares string names s, t (u in a promoted branch) and adds serial writes / assignments / swaps of string literals (printable ASCII incl. quote, backslash, braces), names and "
                        "conditional expressions, str(<int expression, also over the loop variable in scope>), str(<string>), concatenations (never two `const char*` operands), f-strings (literal text and int-/string-typed formatted values) and `s += e` to every block; N in {0,1,3} passes; "
                        "each program goes through T, S_py, S_c (strict and raw reading) and E; plus fixed scripts for "
-                       "break-in-main-loop, swaps/tuples, helpers, lists, f-strings (E only) and one-construct-outside scripts; non-trivial = has control flow")
+                       "break-in-main-loop, swaps/tuples, helpers, lists, f-strings (E only) and one-construct-outside scripts; tuple assignments to int globals whose "
+                       "right-hand sides call helper functions that read / write (`global`) / print those globals, with and without a target named on the right-hand side, "
+                       "at top level, in if/for blocks and in the main loop, all globals printed after every statement (pinned + random, E only); non-trivial = has control flow")
     return ctx.finish(TRUSTED, search=None)
